@@ -158,6 +158,23 @@ def routes_correspondence(ck, gen_routes):
             ck.violation("malformed-definition-accepted", "'%s' was accepted" % n, dict(kind="route-refused", name=n))
 
 
+# processes that look alike: the same transition twice, and the same endpoints and rate with different jump sizes
+# (two processes are two processes, whatever route they come in by)
+CORPUS_DEFS = [
+    dict(states=["S", "I", "R"], params=["beta", "gamma"], derived=[], odes=[],
+         events=[dict(rate="beta*S", kind="linear", trans=[dict(ty="T", o=0, d=1, mag="1")]),
+                 dict(rate="beta*S", kind="linear", trans=[dict(ty="T", o=0, d=1, mag="1")]),
+                 dict(rate="gamma*I", kind="linear", trans=[dict(ty="T", o=1, d=2, mag="1")])]),
+    dict(states=["S", "I", "R"], params=["beta", "gamma"], derived=[], odes=[],
+         events=[dict(rate="beta*S", kind="linear", trans=[dict(ty="T", o=0, d=1, mag="1")]),
+                 dict(rate="beta*S", kind="linear", trans=[dict(ty="T", o=0, d=1, mag="3")]),
+                 dict(rate="gamma", kind="const", trans=[dict(ty="B", o=None, d=0, mag="2")]),
+                 dict(rate="gamma", kind="const", trans=[dict(ty="B", o=None, d=0, mag="1")]),
+                 dict(rate="gamma*R", kind="linear", trans=[dict(ty="D", o=2, d=None, mag="1")]),
+                 dict(rate="gamma*R", kind="linear", trans=[dict(ty="D", o=2, d=None, mag="1")])]),
+]
+
+
 def variants(d, rng):
     nproc = len(d["events"]) + len(d["odes"])
     out = []
@@ -187,7 +204,7 @@ def run(ck):
     for k in range(N):
         if time.time() > t_end:
             break
-        d = mg.gen_definition(rng, min_events=1)
+        d = dict(CORPUS_DEFS[k]) if k < len(CORPUS_DEFS) else mg.gen_definition(rng, min_events=1)
         nt = len(d["events"]) >= 2 and any(len(e["trans"]) == 1 for e in d["events"])
         ck.case(dict(definition=d), nontrivial=nt)
         pt = mg.random_point(rng, d)
